@@ -327,7 +327,19 @@ impl<Aux> Vm<'_, Aux> {
         }
 
         let mut instr_ptr = src as usize;
-        self._run(&mut instr_ptr).map_err(|err| err.payload)?;
+        #[cfg(feature = "verif-hooks")]
+        crate::verif::emit(|| crate::verif::Event::Reenter {
+            stack_h: self.runtime_data.value_stack.len() as u32,
+            call_h: self.runtime_data.call_stack.len() as u32,
+        });
+        let res = self._run(&mut instr_ptr).map_err(|err| err.payload);
+        #[cfg(feature = "verif-hooks")]
+        crate::verif::emit(|| crate::verif::Event::ReenterEnd {
+            stack_h: self.runtime_data.value_stack.len() as u32,
+            call_h: self.runtime_data.call_stack.len() as u32,
+            ok: res.is_ok(),
+        });
+        res?;
         // pop the trap callframe
         self.runtime_data.call_stack.pop();
         Ok(self.stack_pop())
@@ -340,6 +352,18 @@ impl<Aux> Vm<'_, Aux> {
             &*program
         };
         let len = program.bytecode.len();
+        #[cfg(feature = "verif-hooks")]
+        let verif_depth = crate::verif::run_depth_enter();
+        #[cfg(feature = "verif-hooks")]
+        struct VerifDepthGuard;
+        #[cfg(feature = "verif-hooks")]
+        impl Drop for VerifDepthGuard {
+            fn drop(&mut self) {
+                crate::verif::run_depth_leave();
+            }
+        }
+        #[cfg(feature = "verif-hooks")]
+        let _verif_depth_guard = VerifDepthGuard;
         // FIXME: should store in VM
         let mut remaining_iters = self.max_instr;
         let bytecode_ptr = program.bytecode.as_ptr();
@@ -371,6 +395,14 @@ impl<Aux> Vm<'_, Aux> {
             let instr: u8 = unsafe { *bytecode_ptr.add(*instr_ptr) };
             let instr: Instruction = unsafe { transmute(instr) };
             let src_ptr = *instr_ptr;
+            #[cfg(feature = "verif-hooks")]
+            crate::verif::emit(|| crate::verif::Event::Instr {
+                ip: src_ptr as u32,
+                op: instr as u8,
+                depth: verif_depth,
+                stack_h: self.runtime_data.value_stack.len() as u32,
+                call_h: self.runtime_data.call_stack.len() as u32,
+            });
             *instr_ptr += 1;
             debug!("Executing: {instr:?} instr_ptr: {instr_ptr}");
             match instr {
@@ -780,7 +812,11 @@ impl<Aux> Vm<'_, Aux> {
 
         self.remaining_iters = self.max_instr;
         let mut instr_ptr = 0;
+        #[cfg(feature = "verif-hooks")]
+        crate::verif::emit(|| crate::verif::Event::RunStart { max_instr: self.max_instr });
         let result = self._run(&mut instr_ptr);
+        #[cfg(feature = "verif-hooks")]
+        crate::verif::emit(|| crate::verif::Event::RunEnd { ok: result.is_ok() });
         self.runtime_data.current_program = std::ptr::null();
         result
     }
